@@ -5,7 +5,7 @@ patch="$(readlink -f "$1")"; id="$2"; tier="${3:-quick}"
 cd /verif
 if [ -n "$(git -C /repo status --porcelain -- . ':!third_party')" ]; then echo "/repo not clean"; exit 3; fi
 git -C /repo apply "$patch" || { echo "patch does not apply"; exit 3; }
-./check "$id" --tier "$tier" > /tmp/mutant.$$.out 2> /tmp/mutant.$$.err; rc=$?
+VERIF_EVIDENCE_DIR=/tmp/mutant-evidence VERIF_REPLAY_DIR=/tmp/mutant-replays ./check "$id" --tier "$tier" > /tmp/mutant.$$.out 2> /tmp/mutant.$$.err; rc=$?
 git -C /repo checkout -- . 
 grep -E "VIOLATION|KNOWN-FINDING" /tmp/mutant.$$.out; tail -3 /tmp/mutant.$$.err
 rm -f /tmp/mutant.$$.out /tmp/mutant.$$.err
